@@ -30,9 +30,9 @@ theorem C12_row_verdict {rooms : List Room} {caller : Key} {now : Int} {c : Chan
     mutation, every row that was written into a room (and whose previous version, if any, was in a room) is
     accepted by every peer holding the same room definitions and that previous version. -/
 theorem C12_accepted_rows_reach_peers {rooms : List Room} {db db' : Db} {caller : Key} {now : Int} {m : Mut}
-    {top : Change} {subs : List Change} (hp : plan db now m = .ok (top, subs))
+    {cs : List Change} (hp : plan db now m = .ok cs)
     (h : mutate Defects.none rooms db caller now m = .ok db') :
-    ∀ c ∈ top :: subs, ∀ n rid, c.node = some n → c.roomId = some rid → n.mdate = now →
+    ∀ c ∈ cs, ∀ n rid, c.node = some n → c.roomId = some rid → n.mdate = now →
       (∀ o, c.old = some o → o.entity = c.entity ∧ o.room ≠ none) →
       peerOk Ingest.Defects.none rooms caller c n = true := by
   intro c hc n rid hn hroom hd hold
@@ -46,25 +46,10 @@ theorem C12_accepted_rows_reach_peers {rooms : List Room} {db db' : Db} {caller 
     rw [← row_verdict_none hroom ((hpl.node n hn).2.trans hroom) (hpl.node n hn).1 hd hold]
     -- the local check of `c` passed
     have hne : c.node ≠ none := by rw [hn]; exact fun e => by cases e
-    have hval : ∃ t, validateChange Defects.none rooms caller now c = .ok t := by
-      unfold validateAll at hv
-      split at hv
-      · rename_i htop
-        simp only [Defects.none, Bool.false_eq_true, if_false] at hv
-        split at hv
-        · cases hv
-        · rename_i l' hl
-          obtain ⟨hmap, hall⟩ := validateList_ok hl
-          rcases List.mem_cons.mp hc with rfl | hcs
-          · exact absurd htop hne
-          · have : c ∈ l'.map (·.1) := by rw [hmap]; exact hcs
-            obtain ⟨ct, hct, rfl⟩ := List.mem_map.mp this
-            exact ⟨ct.2, (hall ct hct).2 hne⟩
-      · obtain ⟨hmap, hall⟩ := validateList_ok hv
-        have : c ∈ l.map (·.1) := by rw [hmap]; exact hc
-        obtain ⟨ct, hct, rfl⟩ := List.mem_map.mp this
-        exact ⟨ct.2, (hall ct hct).2 hne⟩
-    obtain ⟨t, ht⟩ := hval
+    obtain ⟨hmap, hall⟩ := validateList_ok hv
+    have : c ∈ l.map (·.1) := by rw [hmap]; exact hc
+    obtain ⟨ct, hct, rfl⟩ := List.mem_map.mp this
+    have ht := (hall ct hct).2 hne rfl
     unfold localOk
     rw [ht]; rfl
 
@@ -72,8 +57,8 @@ theorem C12_accepted_rows_reach_peers {rooms : List Room} {db db' : Db} {caller 
     same definitions and previous versions would refuse a row the mutation writes, the mutation is refused
     locally. (Contrapositive of the theorem above, stated for the reader.) -/
 theorem C12_peer_refusal_is_local_refusal {rooms : List Room} {db : Db} {caller : Key} {now : Int} {m : Mut}
-    {top : Change} {subs : List Change} (hp : plan db now m = .ok (top, subs))
-    {c : Change} (hc : c ∈ top :: subs) {n : Row} {rid : Id} (hn : c.node = some n) (hroom : c.roomId = some rid)
+    {cs : List Change} (hp : plan db now m = .ok cs)
+    {c : Change} (hc : c ∈ cs) {n : Row} {rid : Id} (hn : c.node = some n) (hroom : c.roomId = some rid)
     (hd : n.mdate = now) (hold : ∀ o, c.old = some o → o.entity = c.entity ∧ o.room ≠ none)
     (hpeer : peerOk Ingest.Defects.none rooms caller c n = false) :
     ∀ db', mutate Defects.none rooms db caller now m ≠ .ok db' := by
@@ -127,9 +112,9 @@ theorem C12_breaks_subNodesSkipped :
     (all-rows right): accepted locally, refused by the peers, which check the departing room. -/
 theorem C12_breaks_oldRoomLookup :
     (mutate { Defects.none with oldRoomLookup := true } rooms01 db0 3 4
-      { handle := 0, isNew := false, entity := 1, room := some 1, val := some 5, field := .none }).toBool = true ∧
+      (.mk 0 false 1 (some 1) (some 5) .none)).toBool = true ∧
     peerVerdictOn rooms01 (mutate { Defects.none with oldRoomLookup := true } rooms01 db0 3 4
-      { handle := 0, isNew := false, entity := 1, room := some 1, val := some 5, field := .none }) 0
+      (.mk 0 false 1 (some 1) (some 5) .none)) 0
       (db0.rows.find? (·.id = 0)) = false := by decide
 
 /-- **C12_breaks_refDeletionResign (#3).** The outsider 5 deletes a reference that does not exist: accepted
